@@ -124,7 +124,11 @@ def ev_islands(case, ctx):
                 ref = floodfill.islands(im, bkg, rms, seed, FLOOD_)
                 try:
                     with np.errstate(invalid="ignore"):
-                        isl = sfm.find_islands(im.copy(), bkg.copy(), rms.copy(), seed_clip=seed, flood_clip=FLOOD_)
+                        a_im, a_bkg, a_rms = im.copy(), bkg.copy(), rms.copy()
+                        isl = sfm.find_islands(a_im, a_bkg, a_rms, seed_clip=seed, flood_clip=FLOOD_)
+                    if not (np.array_equal(a_im, im, equal_nan=True) and np.array_equal(a_bkg, bkg, equal_nan=True) and np.array_equal(a_rms, rms, equal_nan=True)):
+                        ctx.violation("find_islands changed its caller's image / background / noise array (snr=%s variant %d seed %g): %d image pixels differ" % (
+                            word, variant, seed, int(np.sum(~((a_im == im) | (np.isnan(a_im) & np.isnan(im)))))), "input_mutated|" + sig)
                 except Exception as e:
                     ctx.violation("find_islands raised %r on snr=%s variant %d seed %g" % (e, word, variant, seed),
                                   "raise|" + sig)
